@@ -83,3 +83,9 @@ def run(ctx):
     judge(ctx, res['client'], poll, 'C14', 'client dispatch poll')
     for ch in chains:
         judge(ctx, res[chain_name(ch)], rp, 'C14', 'Requests<%s>::poll_next' % chain_name(ch))
+    # the server's Sink wrappers hand each operation to the same operation of what they wrap (a decorator that flushed instead of closing, or readied instead of
+    # flushing, would make the chain's contract use differ from the base channel's)
+    from .common import sink_delegation
+    n_del = sink_delegation(ctx, 'C14.delegate', ['server::BaseChannel', 'requests_per_channel::MaxRequests', 'channels_per_key::TrackedChannel'])
+    if n_del < 9:
+        raise CannotDecide('sink delegation sites: %d (floor 9)' % n_del)
